@@ -59,6 +59,13 @@ package main
 // another translated function.  A function that can panic gets result type
 // Option T (none = panic); panic and error result together are rejected.
 // Shadowing / redeclaration of variables is rejected.
+//
+// Round 3 extensions (translate_ext.go, translate_ext2.go, translate_conn.go,
+// groups.go): groups of functions with one generated file each, more integer
+// types, * / %, slices, *big.Int values, pointer-to-struct receivers (mpa.Int,
+// p2p.Conn), callees that can panic (bound through Option), loops with computed
+// bounds / `range` over slices / panicking bodies, opaque tails and opaque
+// methods.  See the header comments of those files.
 
 import (
 	"crypto/sha256"
@@ -76,7 +83,7 @@ import (
 // ------------------------------------------------------------------ targets
 
 type target struct {
-	pkg  string // directory below the repository root (= package name)
+	pkg  string // directory below the repository root; the package name is its last element
 	recv string // receiver type name or ""
 	name string
 }
@@ -90,39 +97,11 @@ func (t target) key() string {
 
 func (t target) String() string { return t.pkg + "." + t.key() }
 
-// The fixed list.  Every entry is REQUIRED: a missing function is a broken tie.
-var targets = []target{
-	{"ot", "Label", "Equal"},
-	{"ot", "", "NewTweak"},
-	{"ot", "Label", "S"},
-	{"ot", "Label", "SetS"},
-	{"ot", "Label", "Mul2"},
-	{"ot", "Label", "Mul4"},
-	{"ot", "Label", "Xor"},
-	{"ot", "Label", "And"},
-	{"ot", "Label", "GetData"},
-	{"ot", "Label", "SetData"},
-	{"ot", "Label", "Bit"},
-	{"ot", "Label", "SetBit"},
-	{"circuit", "", "idxUnary"},
-	{"circuit", "", "idx"},
-	{"circuit", "", "makeK"},
-	{"circuit", "", "makeKHalf"},
-	{"circuit", "", "encrypt"},
-	{"circuit", "", "decrypt"},
-	{"circuit", "", "encryptHalf"},
-	{"circuit", "", "LabelForBit"},
-	{"circuit", "", "BitFromLabel"},
-	{"ot", "", "clmul64"},
-	{"ot", "", "mul128Generic"},
-	{"circuit", "", "bitLen"},
-}
-
 // Type declarations the representation depends on (normalised text).
 var typeShapes = map[string]string{
-	"Label":     "struct{D0 uint64;D1 uint64}",
-	"Wire":      "struct{L0 Label;L1 Label}",
-	"LabelData": "[16]byte",
+	"ot.Label":     "struct{D0 uint64;D1 uint64}",
+	"ot.Wire":      "struct{L0 Label;L1 Label}",
+	"ot.LabelData": "[16]byte",
 }
 
 const otImport = "github.com/markkurossi/mpc/ot"
@@ -144,14 +123,30 @@ const (
 	tData
 	tCipher
 	tTuple
+	// extensions (translate_ext.go)
+	tU8    // byte, uint8
+	tU16   // uint16
+	tI64   // int64
+	tI32   // int32, types.Size
+	tBig   // *big.Int, immutable value or nil: Option Int
+	tSlU8  // []byte
+	tSlU64 // []uint64
+	tSlInt // []int
+	tMpa   // *mpa.Int: (bits, i64, values)
+	tConn  // *p2p.Conn: the fields of connShape
+	tOpq   // result of an opaque call: a value that is only tested against nil
 )
 
 func (t ty) lean() string {
 	switch t {
-	case tU64, tInt, tUint:
+	case tU64, tInt, tUint, tI64:
 		return "BitVec 64"
-	case tU32:
+	case tU32, tI32:
 		return "BitVec 32"
+	case tU16:
+		return "BitVec 16"
+	case tU8:
+		return "BitVec 8"
 	case tBool:
 		return "Bool"
 	case tLabel:
@@ -162,26 +157,97 @@ func (t ty) lean() string {
 		return "BitVec 128"
 	case tCipher:
 		return "BitVec 128 → BitVec 128"
+	case tBig:
+		return "Option Int"
+	case tSlU8:
+		return "Array (BitVec 8)"
+	case tSlU64, tSlInt:
+		return "Array (BitVec 64)"
+	case tMpa:
+		return "MpaInt"
+	case tConn:
+		return "ConnS"
 	}
 	return "?"
 }
 
 func (t ty) String() string {
+	switch t {
+	case tU8:
+		return "byte"
+	case tU16:
+		return "uint16"
+	case tI64:
+		return "int64"
+	case tI32:
+		return "int32"
+	case tBig:
+		return "*big.Int"
+	case tSlU8:
+		return "[]byte"
+	case tSlU64:
+		return "[]uint64"
+	case tSlInt:
+		return "[]int"
+	case tMpa:
+		return "*mpa.Int"
+	case tConn:
+		return "*p2p.Conn"
+	case tOpq:
+		return "(opaque)"
+	}
 	return [...]string{"(none)", "untyped constant", "uint64", "uint32", "int", "uint", "bool", "Label", "Wire",
 		"*LabelData", "cipher.Block", "(multiple results)"}[t]
 }
 
 func (t ty) width() int {
 	switch t {
-	case tU64, tInt, tUint:
+	case tU64, tInt, tUint, tI64:
 		return 64
-	case tU32:
+	case tU32, tI32:
 		return 32
+	case tU16:
+		return 16
+	case tU8:
+		return 8
 	}
 	return 0
 }
 
 func (t ty) isInt() bool { return t.width() > 0 }
+
+// signed: Go's signed integer types (two's complement in the same BitVec).
+func (t ty) signed() bool { return t == tInt || t == tI64 || t == tI32 }
+
+// elem: element type of a slice type (tNone otherwise).
+func (t ty) elem() ty {
+	switch t {
+	case tSlU8:
+		return tU8
+	case tSlU64:
+		return tU64
+	case tSlInt:
+		return tInt
+	}
+	return tNone
+}
+
+func (t ty) isSlice() bool { return t.elem() != tNone }
+
+// isStruct: pointer-to-struct types represented as a tuple of their listed fields.
+func (t ty) isStruct() bool { return t == tMpa || t == tConn }
+
+func sliceOf(e ty) ty {
+	switch e {
+	case tU8:
+		return tSlU8
+	case tU64:
+		return tSlU64
+	case tInt:
+		return tSlInt
+	}
+	return tNone
+}
 
 // ----------------------------------------------------------------------- IR
 
@@ -226,6 +292,8 @@ type nLoop struct {
 	body      node
 	init      string
 	after     node
+	nexpr     string // general loops: the iteration count as a Lean Nat expression (instead of n)
+	optSt     bool   // the fold state is an Option (a panic in the body = none)
 }
 
 // nMatch: Option.elim scrut b (fun v => a)   (= match scrut with | some v => a | none => b)
@@ -238,6 +306,7 @@ type nMatch struct {
 
 type pkgInfo struct {
 	name    string
+	rel     string // directory below the repository root
 	dir     string
 	fset    *token.FileSet
 	funcs   map[string]*ast.FuncDecl
@@ -249,8 +318,9 @@ type pkgInfo struct {
 	dupFunc map[string]bool
 }
 
-func loadPkg(repo, name string) (*pkgInfo, error) {
-	p := &pkgInfo{name: name, dir: filepath.Join(repo, name), fset: token.NewFileSet(),
+func loadPkg(repo, rel string) (*pkgInfo, error) {
+	name := rel[strings.LastIndex(rel, "/")+1:]
+	p := &pkgInfo{name: name, rel: rel, dir: filepath.Join(repo, rel), fset: token.NewFileSet(),
 		funcs: map[string]*ast.FuncDecl{}, fileOf: map[*ast.FuncDecl]*ast.File{},
 		pathOf: map[*ast.File]string{}, src: map[*ast.File][]byte{},
 		types: map[string]*ast.TypeSpec{}, typeIn: map[string]*ast.File{}, dupFunc: map[string]bool{}}
@@ -275,7 +345,7 @@ func loadPkg(repo, name string) (*pkgInfo, error) {
 		if f.Name.Name != name {
 			continue
 		}
-		p.pathOf[f] = name + "/" + n
+		p.pathOf[f] = rel + "/" + n
 		p.src[f] = src
 		for _, d := range f.Decls {
 			switch d := d.(type) {
@@ -328,7 +398,16 @@ func shapeOf(e ast.Expr) string {
 	switch e := e.(type) {
 	case *ast.Ident:
 		return e.Name
+	case *ast.SelectorExpr:
+		if x, ok := e.X.(*ast.Ident); ok {
+			return x.Name + "." + e.Sel.Name
+		}
+	case *ast.StarExpr:
+		return "*" + shapeOf(e.X)
 	case *ast.ArrayType:
+		if e.Len == nil {
+			return "[]" + shapeOf(e.Elt)
+		}
 		if l, ok := e.Len.(*ast.BasicLit); ok {
 			return "[" + l.Value + "]" + shapeOf(e.Elt)
 		}
@@ -336,7 +415,8 @@ func shapeOf(e ast.Expr) string {
 		var fs []string
 		for _, f := range e.Fields.List {
 			if f.Tag != nil || len(f.Names) == 0 {
-				return "?"
+				fs = append(fs, "?")
+				continue
 			}
 			for _, n := range f.Names {
 				fs = append(fs, n.Name+" "+shapeOf(f.Type))
@@ -376,15 +456,26 @@ type fn struct {
 	src      string
 	hash     string
 	calls    []string
+	// extensions
+	nOpaque   int      // number of opaque parameters large'N
+	opaqueWhy []string // why each of them is opaque
+	opaqueTyp []string // Lean type of each of them ("" = the result type of the definition)
+	retRecv   bool     // pointer-receiver method whose result is the receiver itself
+	alsoOut   string   // targets flagged alsoOut: the slice parameter whose final content is returned after the results
+	stateful  bool     // method of a struct type with opaque methods (p2p.Conn): the value is (receiver state[, results]);
+	//                    the opaque methods are parameters (flush, fill) right after the receiver
 }
 
 type gen struct {
-	repo  string
-	pkgs  map[string]*pkgInfo
-	fns   map[string]*fn // by target.String()
-	done  []*fn
-	errs  []string
-	types []string // header lines about the type declarations
+	repo     string
+	grp      *group
+	all      map[string]target // the targets of every group, by target.String()
+	pkgs     map[string]*pkgInfo
+	fns      map[string]*fn // by target.String()
+	done     []*fn
+	errs     []string
+	types    []string        // header lines about the type declarations
+	typeSeen map[string]bool // pkg.Type whose shape was checked
 }
 
 type trErr struct {
@@ -411,38 +502,76 @@ func leanVar(goName string) string {
 	return goName
 }
 
-func translateAll(repo string) (text string, report string, errs []string) {
-	g := &gen{repo: repo, pkgs: map[string]*pkgInfo{}, fns: map[string]*fn{}}
-	for _, t := range targets {
-		if _, ok := g.pkgs[t.pkg]; !ok {
-			p, err := loadPkg(repo, t.pkg)
-			if err != nil {
-				return "", "", []string{fmt.Sprintf("package %s: %v", t.pkg, err)}
-			}
-			g.pkgs[t.pkg] = p
+// pkg loads (once) the package in directory rel below the repository root.
+func (g *gen) pkg(rel string) (*pkgInfo, error) {
+	if p, ok := g.pkgs[rel]; ok {
+		return p, nil
+	}
+	p, err := loadPkg(g.repo, rel)
+	if err != nil {
+		return nil, err
+	}
+	g.pkgs[rel] = p
+	return p, nil
+}
+
+// lookup returns the fn record of a listed target (of any group), locating its
+// declaration on first use; nil when tg is not a listed target.  A listed
+// function that is missing / declared twice is an error (recorded in g.errs).
+func (g *gen) lookup(tg target) *fn {
+	if f, ok := g.fns[tg.String()]; ok {
+		return f
+	}
+	if _, listed := g.all[tg.String()]; !listed {
+		return nil
+	}
+	g.fns[tg.String()] = nil
+	p, err := g.pkg(tg.pkg)
+	if err != nil {
+		g.errs = append(g.errs, fmt.Sprintf("package %s: %v", tg.pkg, err))
+		return nil
+	}
+	d := p.funcs[tg.key()]
+	if d == nil {
+		g.errs = append(g.errs, fmt.Sprintf("%s: function not found in %s (renamed or removed: the tie is broken)", tg, p.dir))
+		return nil
+	}
+	if p.dupFunc[tg.key()] {
+		g.errs = append(g.errs, fmt.Sprintf("%s: declared more than once in %s (build-tag variants are not supported)", tg, p.dir))
+		return nil
+	}
+	f := &fn{tgt: tg, pkg: p, decl: d, file: p.fileOf[d], leanName: tg.key()}
+	f.src = p.text(f.file, d)
+	f.hash = sha16(f.src)
+	g.fns[tg.String()] = f
+	return f
+}
+
+func translateAll(repo, groupName string) (text string, report string, errs []string) {
+	g := &gen{repo: repo, pkgs: map[string]*pkgInfo{}, fns: map[string]*fn{}, all: map[string]target{},
+		typeSeen: map[string]bool{}}
+	for i := range groups {
+		for _, t := range groups[i].targets {
+			g.all[t.String()] = t
+		}
+		if groups[i].name == groupName {
+			g.grp = &groups[i]
 		}
 	}
-	g.checkTypes()
-	for _, t := range targets {
-		p := g.pkgs[t.pkg]
-		d := p.funcs[t.key()]
-		if d == nil {
-			g.errs = append(g.errs, fmt.Sprintf("%s: function not found in %s (renamed or removed: the tie is broken)", t, p.dir))
-			continue
+	if g.grp == nil {
+		var names []string
+		for _, gr := range groups {
+			names = append(names, gr.name)
 		}
-		if p.dupFunc[t.key()] {
-			g.errs = append(g.errs, fmt.Sprintf("%s: declared more than once in %s (build-tag variants are not supported)", t, p.dir))
-			continue
-		}
-		f := &fn{tgt: t, pkg: p, decl: d, file: p.fileOf[d], leanName: t.key()}
-		f.src = p.text(f.file, d)
-		f.hash = sha16(f.src)
-		g.fns[t.String()] = f
+		return "", "", []string{fmt.Sprintf("unknown group %q (groups: %s)", groupName, strings.Join(names, " "))}
+	}
+	for _, t := range g.grp.targets {
+		g.lookup(t)
 	}
 	if len(g.errs) > 0 {
 		return "", "", g.errs
 	}
-	for _, t := range targets {
+	for _, t := range g.grp.targets {
 		g.ensure(g.fns[t.String()], token.NoPos, nil)
 	}
 	if len(g.errs) > 0 {
@@ -451,31 +580,58 @@ func translateAll(repo string) (text string, report string, errs []string) {
 	return g.emit()
 }
 
-func (g *gen) checkTypes() {
-	p := g.pkgs["ot"]
-	names := make([]string, 0, len(typeShapes))
-	for n := range typeShapes {
-		names = append(names, n)
+// needType checks (once) that the declaration of a type the representation
+// depends on still has the expected shape; name = "<package dir>.<Type>".
+func (g *gen) needType(pos token.Pos, from *tr, rel, name string) {
+	key := rel[strings.LastIndex(rel, "/")+1:] + "." + name
+	if g.typeSeen[key] {
+		return
 	}
-	sort.Strings(names)
-	for _, n := range names {
-		ts := p.types[n]
-		if ts == nil {
-			g.errs = append(g.errs, fmt.Sprintf("ot.%s: type declaration not found", n))
-			continue
-		}
-		got := shapeOf(ts.Type)
-		if ts.Assign != token.NoPos {
-			got = "= " + got
-		}
-		if got != typeShapes[n] {
-			g.errs = append(g.errs, fmt.Sprintf("%s: type ot.%s is `%s`, the translator's representation needs `%s`",
-				p.fset.Position(ts.Pos()), n, got, typeShapes[n]))
-			continue
-		}
-		f := p.typeIn[n]
-		g.types = append(g.types, fmt.Sprintf("  %-18s type %-28s %s", p.pathOf[f], n, sha16(p.text(f, ts))))
+	g.typeSeen[key] = true
+	want, ok := typeShapes[key]
+	if !ok {
+		from.fail(pos, "type %s has no representation", key)
 	}
+	p, err := g.pkg(rel)
+	if err != nil {
+		from.fail(pos, "package %s: %v", rel, err)
+	}
+	ts := p.types[name]
+	if ts == nil {
+		from.fail(pos, "%s: type declaration not found", key)
+	}
+	got := shapeOf(ts.Type)
+	if ts.Assign != token.NoPos {
+		got = "= " + got
+	}
+	if !shapeMatches(got, want) {
+		from.fail(pos, "%s: type %s is `%s`, the translator's representation needs `%s`",
+			p.fset.Position(ts.Pos()), key, got, want)
+	}
+	f := p.typeIn[name]
+	g.types = append(g.types, fmt.Sprintf("  %-22s type %-28s %s", p.pathOf[f], name, sha16(p.text(f, ts))))
+}
+
+// shapeMatches: want is either the exact shape or, with a leading "⊇", a list of
+// fields `struct{A T;B T}` that must all be present (other fields are ignored).
+func shapeMatches(got, want string) bool {
+	if !strings.HasPrefix(want, "⊇") {
+		return got == want
+	}
+	want = strings.TrimPrefix(want, "⊇")
+	if !strings.HasPrefix(got, "struct{") || !strings.HasPrefix(want, "struct{") {
+		return false
+	}
+	have := map[string]bool{}
+	for _, f := range strings.Split(strings.TrimSuffix(strings.TrimPrefix(got, "struct{"), "}"), ";") {
+		have[f] = true
+	}
+	for _, f := range strings.Split(strings.TrimSuffix(strings.TrimPrefix(want, "struct{"), "}"), ";") {
+		if !have[f] {
+			return false
+		}
+	}
+	return true
 }
 
 // ensure translates f (once); called on demand for callees so that the
@@ -538,17 +694,27 @@ type tr struct {
 	assigned map[string]bool
 	mutated  map[string]bool
 	escaped  bool
-	pending  []string
+	pending  []pend
 	nj       int
 	imports  map[string]string
 	loops    []*loopCtx
 	ranges   map[string][2]int64 // loop variables: value interval
+	moved    map[string]bool     // slice variables whose value was assigned to another variable
+	written  map[string]bool     // slice variables that are written somewhere in the function (pre-scan)
+	nonNil   map[string]bool     // Lean expressions of *big.Int values known to be non-nil here
+	ntmp     int
+	panics   int           // number of panic points translated so far (loops: can the body panic?)
+	env0     map[string]ty // the parameters
+	viewOK   bool          // translating an argument position in which a view of a written slice is harmless
 }
 
 type loopCtx struct {
 	vars   []string // outer variables assigned in the body (the fold state)
 	hasRet bool     // the body returns: state gets an `Option result`
 	hasBrk bool     // the body breaks: state gets a Bool
+	// general loops (translate_ext.go)
+	ivState string // the loop variable is an outer variable: part of the state, incremented after each iteration
+	optSt   bool   // the body can panic: the fold state is an Option, leaves are `some ..`
 }
 
 func (t *tr) fail(pos token.Pos, format string, a ...interface{}) {
@@ -587,6 +753,9 @@ func (t *tr) typeExpr(e ast.Expr) (ty, bool) {
 		ptr = true
 		e = s.X
 	}
+	if r, isPtr, ok := t.typeExprExt(e, ptr); ok {
+		return r, isPtr
+	}
 	name := ""
 	switch e := e.(type) {
 	case *ast.Ident:
@@ -615,6 +784,10 @@ func (t *tr) typeExpr(e ast.Expr) (ty, bool) {
 		}
 	default:
 		t.unsupported(e, "type expression")
+	}
+	switch name {
+	case "Label", "Wire", "LabelData":
+		t.g.needType(e.Pos(), t, "ot", name)
 	}
 	var r ty
 	switch name {
@@ -652,6 +825,10 @@ func (t *tr) run() {
 	t.mutated = map[string]bool{}
 	t.imports = map[string]string{}
 	t.ranges = map[string][2]int64{}
+	t.viewOK = false
+	t.moved = map[string]bool{}
+	t.nonNil = map[string]bool{}
+	t.written = writtenSlices(d.Body)
 	for _, im := range f.file.Imports {
 		path := strings.Trim(im.Path.Value, "\"`")
 		name := path[strings.LastIndex(path, "/")+1:]
@@ -679,11 +856,11 @@ func (t *tr) run() {
 				t.fail(fld.Pos(), "unsupported unnamed parameter")
 			}
 			if isRecv {
-				if pt != tLabel {
+				if pt != tLabel && !pt.isStruct() {
 					t.fail(fld.Pos(), "unsupported receiver type %s", pt)
 				}
 				f.hasRecv, f.recvPtr = true, ptr
-			} else if ptr && pt != tData {
+			} else if ptr && pt != tData && !pt.isStruct() {
 				t.fail(fld.Pos(), "unsupported pointer parameter of type *%s", pt)
 			}
 			for _, n := range fld.Names {
@@ -697,6 +874,11 @@ func (t *tr) run() {
 	}
 	addParams(d.Recv, true)
 	addParams(d.Type.Params, false)
+	t.env0 = map[string]ty{}
+	for _, p := range f.params {
+		t.env0[p.name] = p.t
+	}
+	f.stateful = f.recvPtr && len(opaqueMethods[f.params[0].t]) > 0
 	nCipher := 0
 	for _, p := range f.params {
 		if p.t == tCipher {
@@ -707,7 +889,10 @@ func (t *tr) run() {
 		t.fail(d.Pos(), "more than one cipher.Block parameter")
 	}
 	f.result = tNone
-	if r := d.Type.Results; r != nil && len(r.List) > 0 {
+	if t.returnsReceiver(d) {
+		f.retRecv = true
+		f.outVar = f.params[0].name
+	} else if r := d.Type.Results; r != nil && len(r.List) > 0 {
 		fields := r.List
 		last := fields[len(fields)-1]
 		if id, ok := last.Type.(*ast.Ident); ok && id.Name == "error" {
@@ -717,8 +902,11 @@ func (t *tr) run() {
 			f.errRes = true
 			fields = fields[:len(fields)-1]
 		}
-		if len(fields) == 0 {
+		if len(fields) == 0 && !f.stateful {
 			t.fail(r.Pos(), "unsupported result list (only an error)")
+		}
+		if len(fields) == 0 {
+			f.outVar = f.params[0].name
 		}
 		for _, fld := range fields {
 			rt, ptr := t.typeExpr(fld.Type)
@@ -736,15 +924,33 @@ func (t *tr) run() {
 		if len(f.resNames) != 0 && len(f.resNames) != len(f.results) {
 			t.fail(r.Pos(), "unsupported mix of named and unnamed results")
 		}
-		f.result = f.results[0]
+		if len(f.results) > 0 {
+			f.result = f.results[0]
+		}
 		if len(f.results) > 1 {
 			f.result = tTuple
 		}
-		if f.recvPtr {
+		if f.recvPtr && !f.params[0].t.isStruct() {
 			t.fail(r.Pos(), "unsupported: pointer receiver method with a result")
 		}
 		for i, n := range f.resNames {
 			t.declare(r.Pos(), n, f.results[i])
+		}
+		if alsoOutOK[f.tgt.String()] {
+			for _, p := range f.params {
+				if p.t.isSlice() && t.written[p.name] {
+					if f.alsoOut != "" {
+						t.fail(d.Pos(), "function that writes more than one slice parameter")
+					}
+					f.alsoOut = p.name
+				}
+			}
+			if f.alsoOut == "" {
+				t.fail(d.Pos(), "function flagged alsoOut writes no slice parameter")
+			}
+			if len(f.results) == 1 {
+				f.result = tTuple // several values
+			}
 		}
 	} else {
 		// the value of the Lean definition is the thing written through a pointer
@@ -759,6 +965,17 @@ func (t *tr) run() {
 					f.outVar = p.name
 				}
 			}
+			if f.outVar == "" {
+				// the slice parameter that is written
+				for _, p := range f.params {
+					if p.t.isSlice() && t.written[p.name] {
+						if f.outVar != "" {
+							t.fail(d.Pos(), "function without result that writes more than one slice parameter")
+						}
+						f.outVar = p.name
+					}
+				}
+			}
 		}
 		if f.outVar == "" {
 			t.fail(d.Pos(), "function has neither a result nor a pointer receiver/parameter: nothing to translate")
@@ -769,13 +986,13 @@ func (t *tr) run() {
 		// named results start at their zero value
 		f.body = nLet{leanVar(f.resNames[i]), f.results[i].lean(), zero(f.results[i]), f.body}
 	}
-	if f.hasPanic && f.errRes {
+	if f.hasPanic && f.errRes && !f.stateful {
 		t.fail(d.Pos(), "unsupported: function that can both panic and return an error")
 	}
 	// which pointer targets were written?
 	var mut []string
 	for v := range t.mutated {
-		if t.ptrVars[v] {
+		if t.ptrVars[v] || (t.isParam(v) && t.env0[v].isSlice() && t.written[v]) {
 			mut = append(mut, v)
 		}
 	}
@@ -785,7 +1002,7 @@ func (t *tr) run() {
 			if v != f.outVar {
 				t.fail(d.Pos(), "function writes through more than one pointer (`%s` and `%s`)", f.outVar, v)
 			}
-		} else {
+		} else if !(f.stateful && v == f.params[0].name) && v != f.alsoOut {
 			f.scratch = append(f.scratch, v)
 		}
 	}
@@ -800,8 +1017,18 @@ func tupleOf(parts []string) string {
 
 func (f *fn) resultLean() string {
 	var ps []string
+	if f.stateful {
+		ps = append(ps, f.params[0].t.lean())
+	}
 	for _, r := range f.results {
 		ps = append(ps, r.lean())
+	}
+	if f.alsoOut != "" {
+		for _, p := range f.params {
+			if p.name == f.alsoOut {
+				ps = append(ps, p.t.lean())
+			}
+		}
 	}
 	return strings.Join(ps, " × ")
 }
@@ -816,12 +1043,21 @@ func (t *tr) loopState(lc *loopCtx, ret, brk string) string {
 		ps = append(ps, brk)
 	}
 	for _, v := range lc.vars {
+		if v == lc.ivState && ret == "none" && brk == "false" {
+			// end of an iteration (also `continue`): the post statement iv++
+			ps = append(ps, fmt.Sprintf("(%s + 1#%d)", leanVar(v), t.env[v].width()))
+			continue
+		}
 		ps = append(ps, leanVar(v))
 	}
-	if len(ps) == 0 {
-		return "()"
+	r := "()"
+	if len(ps) > 0 {
+		r = tupleOf(ps)
 	}
-	return tupleOf(ps)
+	if lc.optSt {
+		return "some " + paren(r)
+	}
+	return r
 }
 
 // retLeaf: the function returns val (inside a loop body: the fold state records it).
@@ -893,7 +1129,17 @@ func (t *tr) fallOff(pos token.Pos) node {
 	return nLeaf{leanVar(t.f.outVar), true}
 }
 
-func (t *tr) takePending() []string {
+// pend: something that must happen before the statement whose expressions are
+// being translated: a run-time panic condition, or the call of a callee that
+// can panic (its value is bound to tmp, `none` = the panic propagates).
+type pend struct {
+	cond      string
+	tmp, call string
+}
+
+func (t *tr) pendCond(c string) { t.pending = append(t.pending, pend{cond: c}) }
+
+func (t *tr) takePending() []pend {
 	p := t.pending
 	t.pending = nil
 	return p
@@ -901,11 +1147,16 @@ func (t *tr) takePending() []string {
 
 // guard protects n by the run-time panic conditions collected while
 // translating the expressions of one statement.
-func guard(conds []string, n node, t *tr) node {
+func guard(conds []pend, n node, t *tr) node {
 	for i := len(conds) - 1; i >= 0; i-- {
-		n = nIf{conds[i], nPanic{}, n}
+		if conds[i].cond != "" {
+			n = nIf{conds[i].cond, nPanic{}, n}
+		} else {
+			n = nMatch{conds[i].call, conds[i].tmp, n, nPanic{}}
+		}
 		t.escaped = true
 		t.f.hasPanic = true
+		t.panics++
 	}
 	return n
 }
@@ -919,6 +1170,8 @@ type snapshot struct {
 	nj       int
 	hasPanic bool
 	calls    int
+	moved    map[string]bool
+	nOpaque  int
 }
 
 func copySet(m map[string]bool) map[string]bool {
@@ -935,7 +1188,7 @@ func (t *tr) snap() snapshot {
 		e[k] = v
 	}
 	return snapshot{e, append([]string(nil), t.order...), copySet(t.assigned), copySet(t.mutated), t.escaped, t.nj,
-		t.f.hasPanic, len(t.f.calls)}
+		t.f.hasPanic, len(t.f.calls), copySet(t.moved), t.f.nOpaque}
 }
 
 func (t *tr) restore(s snapshot) {
@@ -947,6 +1200,9 @@ func (t *tr) restore(s snapshot) {
 	t.assigned, t.mutated, t.escaped, t.nj = copySet(s.assigned), copySet(s.mutated), s.escaped, s.nj
 	t.f.hasPanic = s.hasPanic
 	t.f.calls = t.f.calls[:s.calls]
+	t.moved = copySet(s.moved)
+	t.f.nOpaque = s.nOpaque
+	t.f.opaqueWhy, t.f.opaqueTyp = t.f.opaqueWhy[:s.nOpaque], t.f.opaqueTyp[:s.nOpaque]
 }
 
 // popScope forgets the variables declared since s (Go block scope ends).
@@ -1052,9 +1308,10 @@ func (t *tr) seq(list []ast.Stmt, tail func() node) node {
 			if vt == tUntyped {
 				val, vt = t.typed(rhs, tInt), tInt
 			}
-			if vt == tCipher || vt == tData || vt == tNone {
+			if vt == tCipher || vt == tData || vt == tNone || vt.isStruct() || vt == tTuple {
 				t.unsupported(s, "short variable declaration of this type")
 			}
+			t.sliceBind(id, rhs, vt)
 			t.declare(id.Pos(), id.Name, vt)
 			return bind(s.Pos(), id.Name, val)
 		}
@@ -1098,9 +1355,25 @@ func (t *tr) seq(list []ast.Stmt, tail func() node) node {
 				t.fail(l.Pos(), "assignment to unknown variable `%s`", l.Name)
 			}
 			val := t.typedOp(rhs, lt, s)
+			t.sliceBind(l, rhs, lt)
 			t.setVar(l.Pos(), l.Name)
 			return bind(s.Pos(), l.Name, val)
+		case *ast.IndexExpr:
+			name, val := t.indexAssign(l, rhs, s)
+			t.setVar(l.Pos(), name)
+			return bind(s.Pos(), name, val)
 		case *ast.SelectorExpr:
+			if x, ok := l.X.(*ast.Ident); ok && t.env[x.Name].isStruct() {
+				st := t.env[x.Name]
+				i, ft := t.fieldIndex(st, l.Sel.Name)
+				if i < 0 {
+					t.fail(l.Pos(), "unsupported assignment to field `%s` of %s (not represented)", l.Sel.Name, st)
+				}
+				val := t.typedOp(rhs, ft, s)
+				t.readPtr(l.Pos(), x.Name)
+				t.setVar(l.Pos(), x.Name)
+				return bind(s.Pos(), x.Name, withField(st, leanVar(x.Name), i, val))
+			}
 			x, ok := l.X.(*ast.Ident)
 			if !ok || t.env[x.Name] != tLabel || (l.Sel.Name != "D0" && l.Sel.Name != "D1") {
 				t.unsupported(l, "assignment target")
@@ -1125,6 +1398,7 @@ func (t *tr) seq(list []ast.Stmt, tail func() node) node {
 			if _, shadow := t.env["panic"]; !shadow {
 				t.escaped = true
 				t.f.hasPanic = true
+				t.panics++
 				t.pending = nil
 				return nPanic{}
 			}
@@ -1136,7 +1410,36 @@ func (t *tr) seq(list []ast.Stmt, tail func() node) node {
 	case *ast.ReturnStmt:
 		t.escaped = true
 		if t.f.result == tNone {
-			if len(s.Results) != 0 {
+			if t.f.retRecv {
+				if len(s.Results) != 1 {
+					t.unsupported(s, "return (number of values)")
+				}
+				if id, ok := unparen(s.Results[0]).(*ast.Ident); !ok || id.Name != t.f.outVar {
+					t.unsupported(s, "return value (a method returning its receiver must return the receiver variable)")
+				}
+			} else if t.f.errRes {
+				// a method whose only result is the error
+				if len(s.Results) != 1 {
+					t.unsupported(s, "return (number of values)")
+				}
+				if len(t.loops) > 0 {
+					t.unsupported(s, "return inside a loop of a function without result")
+				}
+				e := s.Results[0]
+				switch {
+				case t.isNil(e):
+				case t.isErrorValue(e):
+					t.pending = nil
+					return nPanic{}
+				default:
+					call, recv, ok := t.opaqueCall(e)
+					if !ok || recv != t.f.outVar {
+						t.unsupported(e, "error value (only nil, fmt.Errorf(..), errors.New(..), a call of an opaque method of the receiver)")
+					}
+					t.setVar(e.Pos(), recv)
+					return guard(t.takePending(), nLeaf{call, false}, t)
+				}
+			} else if len(s.Results) != 0 {
 				t.unsupported(s, "return with a value in a function without result")
 			}
 			if len(t.loops) > 0 {
@@ -1170,10 +1473,18 @@ func (t *tr) seq(list []ast.Stmt, tail func() node) node {
 			}
 		case len(results) == len(t.f.results):
 			for i, r := range results {
+				t.viewOK = true // a returned view is a value: nothing is written afterwards
 				parts = append(parts, t.typed(r, t.f.results[i]))
+				t.viewOK = false
 			}
 		default:
 			t.unsupported(s, "return (number of values)")
+		}
+		if t.f.stateful {
+			parts = append([]string{leanVar(t.f.params[0].name)}, parts...)
+		}
+		if t.f.alsoOut != "" {
+			parts = append(parts, leanVar(t.f.alsoOut))
 		}
 		return guard(t.takePending(), t.retLeaf(tupleOf(parts)), t)
 
@@ -1201,14 +1512,17 @@ func (t *tr) seq(list []ast.Stmt, tail func() node) node {
 		t.unsupported(s, "branch statement")
 
 	case *ast.ForStmt:
-		return t.forLoop(s, func() node { return t.seq(rest, tail) })
+		if t.simpleLoop(s) {
+			return t.forLoop(s, func() node { return t.seq(rest, tail) })
+		}
+		return t.genLoop(t.forSpec(s), func() node { return t.seq(rest, tail) })
 
 	case *ast.RangeStmt:
 		// for i := range N  ==  for i := 0; i < N; i++
 		key, ok := s.Key.(*ast.Ident)
 		lim, ok2 := s.X.(*ast.BasicLit)
 		if !ok || !ok2 || s.Value != nil || s.Tok != token.DEFINE || lim.Kind != token.INT {
-			t.unsupported(s, "range statement (only `for i := range <integer literal>`)")
+			return t.genLoop(t.rangeSpec(s), func() node { return t.seq(rest, tail) })
 		}
 		fs := &ast.ForStmt{For: s.For,
 			Init: &ast.AssignStmt{Lhs: []ast.Expr{key}, TokPos: s.TokPos, Tok: token.DEFINE,
@@ -1222,80 +1536,7 @@ func (t *tr) seq(list []ast.Stmt, tail func() node) node {
 		return t.seq(append([]ast.Stmt{t.desugarSwitch(s)}, rest...), tail)
 
 	case *ast.IfStmt:
-		if s.Init != nil {
-			t.unsupported(s.Init, "if statement with init clause")
-		}
-		cond := t.typed(s.Cond, tBool)
-		conds := t.takePending()
-		A := s.Body.List
-		var B []ast.Stmt
-		switch e := s.Else.(type) {
-		case nil:
-		case *ast.BlockStmt:
-			B = e.List
-		case *ast.IfStmt:
-			B = []ast.Stmt{e}
-		default:
-			t.unsupported(s.Else, "else branch")
-		}
-		// probe: do the branches escape (return / panic), what do they assign?
-		sn := t.snap()
-		t.escaped = false
-		t.assigned = map[string]bool{}
-		dummy := func() node { return nLeaf{"", false} }
-		t.seq(A, dummy)
-		t.popScope(sn)
-		t.seq(B, dummy)
-		esc := t.escaped
-		var vars []string
-		for _, v := range sn.order {
-			if t.assigned[v] {
-				vars = append(vars, v)
-			}
-		}
-		t.restore(sn)
-		if !esc {
-			if len(vars) == 0 {
-				// branches without any effect
-				return guard(conds, t.seq(rest, tail), t)
-			}
-			var lv, lt []string
-			for _, v := range vars {
-				lv = append(lv, leanVar(v))
-				lt = append(lt, t.env[v].lean())
-			}
-			tuple := lv[0]
-			if len(lv) > 1 {
-				tuple = "(" + strings.Join(lv, ", ") + ")"
-			}
-			jt := func() node { return nLeaf{tuple, false} }
-			a := t.seq(A, jt)
-			t.popScope(sn)
-			b := t.seq(B, jt)
-			t.popScope(sn)
-			for _, v := range vars {
-				t.assigned[v] = true
-				t.mutated[v] = true
-			}
-			t.nj++
-			tmp := fmt.Sprintf("j'%d", t.nj)
-			return guard(conds, nJoin{tmp, lv, lt, cond, a, b, t.seq(rest, tail)}, t)
-		}
-		// continuation style: the rest of the list is translated in both branches
-		t.escaped = true
-		a := t.seq(A, func() node { t.popScope(sn); return t.seq(rest, tail) })
-		mutA, asgA := t.mutated, t.assigned
-		t.popScope(sn)
-		t.mutated, t.assigned = copySet(sn.mutated), copySet(sn.assigned)
-		b := t.seq(B, func() node { t.popScope(sn); return t.seq(rest, tail) })
-		t.popScope(sn)
-		for k := range mutA {
-			t.mutated[k] = true
-		}
-		for k := range asgA {
-			t.assigned[k] = true
-		}
-		return guard(conds, nIf{cond, a, b}, t)
+		return t.ifStmt(s, rest, tail)
 	}
 	t.unsupported(s, "statement")
 	return nil
@@ -1364,16 +1605,20 @@ func (t *tr) desugarSwitch(s *ast.SwitchStmt) ast.Stmt {
 
 func zero(t ty) string {
 	switch t {
-	case tU64, tInt, tUint:
-		return "0#64"
-	case tU32:
-		return "0#32"
 	case tBool:
 		return "false"
 	case tLabel:
 		return "(0#64, 0#64)"
 	case tWire:
 		return "((0#64, 0#64), (0#64, 0#64))"
+	case tBig:
+		return "none"
+	}
+	if t.isInt() {
+		return fmt.Sprintf("0#%d", t.width())
+	}
+	if t.isSlice() {
+		return "#[]" // the nil slice
 	}
 	return "?"
 }
@@ -1449,7 +1694,7 @@ func (t *tr) literal(l *ast.BasicLit, hint ty) (string, ty) {
 		return v.String(), tUntyped
 	}
 	lim := new(big.Int).Lsh(big.NewInt(1), uint(hint.width()))
-	if hint == tInt {
+	if hint.signed() {
 		lim.Rsh(lim, 1)
 	}
 	if v.Sign() < 0 || v.Cmp(lim) >= 0 {
@@ -1481,6 +1726,9 @@ func (t *tr) constNat(e ast.Expr) (string, bool) {
 }
 
 func (t *tr) expr(e ast.Expr, hint ty) (string, ty) {
+	if xs, xt, ok := t.exprExt(e, hint); ok {
+		return xs, xt
+	}
 	switch e := e.(type) {
 	case *ast.ParenExpr:
 		return t.expr(e.X, hint)
@@ -1493,6 +1741,10 @@ func (t *tr) expr(e ast.Expr, hint ty) (string, ty) {
 			if vt == tCipher {
 				t.unsupported(e, "use of the cipher value")
 			}
+			if t.moved[e.Name] {
+				t.fail(e.Pos(), "unsupported use of slice `%s` after it was assigned to another variable (alias)", e.Name)
+			}
+			t.readPtr(e.Pos(), e.Name)
 			return leanVar(e.Name), vt
 		}
 		switch e.Name {
@@ -1594,7 +1846,7 @@ func (t *tr) operands(e *ast.BinaryExpr, hint ty) (string, string, ty) {
 		if !rt.isInt() {
 			t.fail(e.Pos(), "type mismatch in `%s`: constant vs %s", clip(t.src(e)), rt)
 		}
-		right := append([]string(nil), t.pending[mid:]...)
+		right := append([]pend(nil), t.pending[mid:]...)
 		t.pending = t.pending[:mark]
 		ls, lt = t.expr(e.X, rt)
 		t.pending = append(t.pending, right...)
@@ -1644,20 +1896,23 @@ func (t *tr) binary(e *ast.BinaryExpr, hint ty) (string, ty) {
 			if !ct.isInt() {
 				t.unsupported(e.Y, "shift count")
 			}
-			if lo, _, known := t.interval(e.Y); ct == tInt && !(known && lo >= 0) {
+			if lo, _, known := t.interval(e.Y); ct.signed() && !(known && lo >= 0) {
 				// Go: a negative shift count panics at run time
-				t.pending = append(t.pending, fmt.Sprintf("BitVec.slt %s 0#64", paren(cs)))
+				t.pendCond(fmt.Sprintf("BitVec.slt %s 0#%d", paren(cs), ct.width()))
 			}
 			cnt = paren(cs) + ".toNat"
 		}
 		switch {
 		case e.Op == token.SHL:
 			return "(" + xs + " <<< " + cnt + ")", xt
-		case xt == tInt:
+		case xt.signed():
 			return "(BitVec.sshiftRight " + paren(xs) + " " + paren(cnt) + ")", xt
 		default:
 			return "(" + xs + " >>> " + cnt + ")", xt
 		}
+
+	case token.MUL, token.QUO, token.REM:
+		return t.mulDiv(e, hint)
 
 	case token.XOR, token.OR, token.AND, token.AND_NOT, token.ADD, token.SUB:
 		ls, rs, ot := t.operands(e, hint)
@@ -1680,6 +1935,9 @@ func (t *tr) binary(e *ast.BinaryExpr, hint ty) (string, ty) {
 		}
 
 	case token.EQL, token.NEQ:
+		if xs, ok := t.nilCompare(e); ok {
+			return xs, tBool
+		}
 		ls, rs, ot := t.operands(e, tNone)
 		if !ot.isInt() && ot != tBool && ot != tLabel && ot != tWire {
 			t.fail(e.Pos(), "unsupported comparison of %s values", ot)
@@ -1695,7 +1953,7 @@ func (t *tr) binary(e *ast.BinaryExpr, hint ty) (string, ty) {
 			t.fail(e.Pos(), "unsupported ordering comparison of %s values", ot)
 		}
 		lt, le := "BitVec.ult", "BitVec.ule"
-		if ot == tInt {
+		if ot.signed() {
 			lt, le = "BitVec.slt", "BitVec.sle"
 		}
 		ls, rs = paren(ls), paren(rs)
@@ -1792,7 +2050,7 @@ func (t *tr) resolve(c *ast.CallExpr) (callee *fn, recv ast.Expr) {
 		if _, isVar := t.env[f.Name]; isVar {
 			t.unsupported(c, "call of a function value")
 		}
-		callee = t.g.fns[target{t.f.pkg.name, "", f.Name}.String()]
+		callee = t.g.lookup(target{t.f.pkg.rel, "", f.Name})
 		if callee == nil {
 			t.fail(c.Pos(), "unsupported call of `%s` (not in the list of translated functions)", f.Name)
 		}
@@ -1805,7 +2063,7 @@ func (t *tr) resolve(c *ast.CallExpr) (callee *fn, recv ast.Expr) {
 					t.fail(c.Pos(), "unsupported call `%s`", clip(t.src(c.Fun)))
 				}
 				if path == otImport {
-					callee = t.g.fns[target{"ot", "", f.Sel.Name}.String()]
+					callee = t.g.lookup(target{"ot", "", f.Sel.Name})
 				}
 				if callee == nil {
 					t.fail(c.Pos(), "unsupported call of `%s` (not in the list of translated functions)", t.src(c.Fun))
@@ -1817,12 +2075,13 @@ func (t *tr) resolve(c *ast.CallExpr) (callee *fn, recv ast.Expr) {
 		mark := len(t.pending)
 		_, rt := t.expr(f.X, tNone)
 		t.pending = t.pending[:mark]
-		if rt != tLabel {
+		home, ok := recvHome[rt]
+		if !ok {
 			t.fail(c.Pos(), "unsupported method call `%s` on a value of type %s", clip(t.src(c.Fun)), rt)
 		}
-		callee = t.g.fns[target{"ot", "Label", f.Sel.Name}.String()]
+		callee = t.g.lookup(target{home[0], home[1], f.Sel.Name})
 		if callee == nil {
-			t.fail(c.Pos(), "unsupported call of method `Label.%s` (not in the list of translated functions)", f.Sel.Name)
+			t.fail(c.Pos(), "unsupported call of method `%s.%s` (not in the list of translated functions)", home[1], f.Sel.Name)
 		}
 		return callee, f.X
 	}
@@ -1858,14 +2117,42 @@ func (t *tr) args(c *ast.CallExpr, callee *fn) []string {
 			out = append(out, paren(t.typed(a, ps[i].t)))
 		}
 	}
+	// the callee's opaque parts become opaque parameters of the caller (one set per call site)
+	for i := 0; i < callee.nOpaque; i++ {
+		typ := callee.opaqueTyp[i]
+		if typ == "" {
+			typ = callee.rts()
+		}
+		t.f.nOpaque++
+		t.f.opaqueWhy = append(t.f.opaqueWhy, fmt.Sprintf("the opaque part %d of the callee %s", i+1, callee.tgt))
+		t.f.opaqueTyp = append(t.f.opaqueTyp, typ)
+		out = append(out, fmt.Sprintf("large'%d", t.f.nOpaque))
+	}
 	return out
+}
+
+// rts: the Lean result type of the definition of a translated function.
+func (f *fn) rts() string {
+	rt := f.result
+	if rt == tNone {
+		for _, p := range f.params {
+			if p.name == f.outVar {
+				rt = p.t
+			}
+		}
+	}
+	rts := rt.lean()
+	if f.result != tNone {
+		rts = f.resultLean()
+	}
+	if f.hasPanic || f.errRes {
+		rts = "Option (" + rts + ")"
+	}
+	return rts
 }
 
 func (t *tr) useCallee(c *ast.CallExpr, callee *fn) {
 	t.g.ensure(callee, c.Pos(), t)
-	if callee.hasPanic {
-		t.fail(c.Pos(), "unsupported call of %s, which can panic", callee.tgt)
-	}
 	if len(callee.scratch) > 0 {
 		t.fail(c.Pos(), "unsupported call of %s, which writes its scratch buffer and returns a value", callee.tgt)
 	}
@@ -1877,17 +2164,11 @@ func (t *tr) callExpr(c *ast.CallExpr, hint ty) (string, ty) {
 	// conversions
 	if id, ok := c.Fun.(*ast.Ident); ok {
 		if _, isVar := t.env[id.Name]; !isVar {
-			var to ty
-			switch id.Name {
-			case "uint64":
-				to = tU64
-			case "uint32":
-				to = tU32
-			case "uint":
-				to = tUint
-			case "int":
-				to = tInt
-			case "panic":
+			to := basicType(id.Name)
+			if to == tBool {
+				to = tNone
+			}
+			if id.Name == "panic" {
 				t.unsupported(c, "panic in expression position")
 			}
 			if to != tNone {
@@ -1903,11 +2184,13 @@ func (t *tr) callExpr(c *ast.CallExpr, hint ty) (string, ty) {
 				case xt.width() == to.width():
 					return xs, to
 				default:
-					// unsigned source: zero extension / truncation
-					return fmt.Sprintf("(BitVec.setWidth %d %s)", to.width(), paren(xs)), to
+					return convertInt(xs, xt, to), to
 				}
 			}
 		}
+	}
+	if xs, xt, ok := t.callExprExt(c, hint); ok {
+		return xs, xt
 	}
 	if m, ok := t.bigEndian(c.Fun); ok {
 		if m != "Uint64" || len(c.Args) != 1 {
@@ -1930,20 +2213,27 @@ func (t *tr) targetCall(c *ast.CallExpr) (string, *fn) {
 	if callee.result == tNone {
 		t.fail(c.Pos(), "call of %s (no result) in expression position", callee.tgt)
 	}
-	if callee.errRes {
+	if callee.errRes || callee.stateful {
 		t.fail(c.Pos(), "unsupported call of %s, which returns an error", callee.tgt)
 	}
 	for _, p := range callee.params {
-		if p.ptr || p.t == tCipher {
+		if (p.ptr && !p.t.isStruct()) || p.t == tCipher {
 			t.fail(c.Pos(), "unsupported call of %s (pointer / cipher parameter) in expression position", callee.tgt)
 		}
 	}
 	parts := []string{callee.leanName}
 	if recv != nil {
-		parts = append(parts, paren(t.typed(recv, tLabel)))
+		parts = append(parts, paren(t.typed(recv, callee.params[0].t)))
 	}
 	parts = append(parts, t.args(c, callee)...)
-	return "(" + strings.Join(parts, " ") + ")", callee
+	call := "(" + strings.Join(parts, " ") + ")"
+	if callee.hasPanic {
+		// the callee's panic propagates: bind its value before the statement
+		tmp := t.tmp("c")
+		t.pending = append(t.pending, pend{tmp: tmp, call: call})
+		return tmp, callee
+	}
+	return call, callee
 }
 
 // multiAssign: a, b := e1, e2 / a, b = e1, e2 / a, b := f(..) for a translated f with two or more results.
@@ -2130,7 +2420,9 @@ func (t *tr) forLoop(s *ast.ForStmt, cont func() node) node {
 	t.seq(s.Body.List, func() node { return nLeaf{"", false} })
 	leave()
 	if t.f.hasPanic && !panicBefore {
-		t.unsupported(s, "loop whose body can panic")
+		// a body that can panic: the general form with an Option fold state
+		t.restore(sn)
+		return t.genLoop(t.forSpec(s), cont)
 	}
 	if t.assigned[iv] {
 		t.unsupported(s, "loop whose body assigns the loop variable")
@@ -2212,6 +2504,9 @@ func (t *tr) forLoop(s *ast.ForStmt, cont func() node) node {
 // callStmt: calls executed for their effect; returns the variable that is
 // rebound and its new value.
 func (t *tr) callStmt(c *ast.CallExpr) (string, string) {
+	if name, val, ok := t.callStmtExt(c); ok {
+		return name, val
+	}
 	if m, ok := t.bigEndian(c.Fun); ok {
 		if m != "PutUint64" || len(c.Args) != 2 {
 			t.unsupported(c, "binary.BigEndian call")
@@ -2246,53 +2541,82 @@ func (t *tr) callStmt(c *ast.CallExpr) (string, string) {
 		t.fail(c.Pos(), "unsupported: result of %s is discarded", callee.tgt)
 	}
 	args := t.args(c, callee)
+	wrap := func(call string) string {
+		if callee.hasPanic {
+			tmp := t.tmp("c")
+			t.pending = append(t.pending, pend{tmp: tmp, call: call})
+			return tmp
+		}
+		return call
+	}
 	if callee.recvPtr {
 		id, ok := recv.(*ast.Ident)
-		if !ok || t.env[id.Name] != tLabel {
-			t.unsupported(c, "pointer-receiver method call on something that is not a Label variable")
+		if !ok || t.env[id.Name] != callee.params[0].t {
+			t.unsupported(c, "pointer-receiver method call on something that is not a variable of the receiver type")
 		}
-		return id.Name, "(" + strings.Join(append([]string{callee.leanName, leanVar(id.Name)}, args...), " ") + ")"
+		t.readPtr(c.Pos(), id.Name)
+		head := []string{callee.leanName, leanVar(id.Name)}
+		if callee.stateful {
+			if callee.result != tNone {
+				t.fail(c.Pos(), "unsupported: results of %s are discarded", callee.tgt)
+			}
+			for _, m := range opaqueMethodList(callee.params[0].t) {
+				head = append(head, m.lean)
+			}
+		}
+		return id.Name, wrap("(" + strings.Join(append(head, args...), " ") + ")")
 	}
-	// value receiver (or plain function) writing through its single *LabelData parameter
+	// value receiver (or plain function) writing through its single out parameter
 	ps := callee.params
 	parts := []string{callee.leanName}
 	if callee.hasRecv {
-		parts = append(parts, paren(t.typed(recv, tLabel)))
+		parts = append(parts, paren(t.typed(recv, callee.params[0].t)))
 		ps = ps[1:]
 	}
 	out := ""
 	for i, p := range ps {
-		if p.ptr {
-			out = c.Args[i].(*ast.Ident).Name
+		if p.name == callee.outVar {
+			id, ok := c.Args[i].(*ast.Ident)
+			if !ok {
+				t.unsupported(c.Args[i], "argument that the callee writes (must be a variable)")
+			}
+			out = id.Name
 		}
 	}
 	if out == "" {
 		t.fail(c.Pos(), "call of %s has no effect", callee.tgt)
 	}
-	return out, "(" + strings.Join(append(parts, args...), " ") + ")"
+	return out, wrap("(" + strings.Join(append(parts, args...), " ") + ")")
 }
 
 // ----------------------------------------------------------------- printing
 
 func (g *gen) emit() (string, string, []string) {
 	var b, rep strings.Builder
+	own := map[string]bool{}
+	for _, tg := range g.grp.targets {
+		own[tg.String()] = true
+	}
 	b.WriteString("/-\n")
-	fmt.Fprintf(&b, "GENERATED by harness/cmd/gofacts from %s — do not edit.\n\n", g.repo)
+	fmt.Fprintf(&b, "GENERATED by harness/cmd/gofacts (group %s) from %s — do not edit.\n\n", g.grp.name, g.repo)
 	b.WriteString("T1 leaf translator (DESIGN.md 1.3): one definition per Go function, regenerated\n")
 	b.WriteString("from the current source on every run of checks/t1.py; tied to the hand-written\n")
-	b.WriteString("models by MpcVerif/Proofs/GenTie.lean.  Label = (D0, D1); *LabelData = the 16\n")
-	b.WriteString("bytes as one big-endian 128-bit value; cipher.Block.Encrypt = parameter π.\n\n")
+	fmt.Fprintf(&b, "models by %s.\n", g.grp.ties)
+	b.WriteString("Representation of the Go types: MpcVerif/Gen/Prelude.lean.\n\n")
 	b.WriteString("Source hashes (first 8 bytes of the sha256 of the declaration text):\n")
+	sort.Strings(g.types)
 	for _, l := range g.types {
 		b.WriteString(l + "\n")
 	}
-	for _, tg := range targets {
-		f := g.fns[tg.String()]
-		fmt.Fprintf(&b, "  %-18s func %-28s %s\n", f.pkg.pathOf[f.file], f.tgt.key(), f.hash)
+	for _, f := range g.done {
+		dep := ""
+		if !own[f.tgt.String()] {
+			dep = "   (callee, listed in another group)"
+		}
+		fmt.Fprintf(&b, "  %-22s func %-28s %s%s\n", f.pkg.pathOf[f.file], f.tgt.key(), f.hash, dep)
 	}
-	b.WriteString("-/\n\nset_option linter.unusedVariables false\n\nnamespace Mpc.Gen\n\n")
-	b.WriteString("/-- `ot.Label`: `(D0, D1)`. -/\nabbrev Label := BitVec 64 × BitVec 64\n")
-	b.WriteString("/-- `ot.Wire`: `(L0, L1)`. -/\nabbrev Wire := Label × Label\n\n")
+	b.WriteString("-/\nimport MpcVerif.Gen.Prelude\n\nset_option linter.unusedVariables false\n\n")
+	fmt.Fprintf(&b, "namespace %s\nopen Mpc.Gen\n\n", g.grp.ns)
 	for _, f := range g.done {
 		rt := f.result
 		if rt == tNone {
@@ -2323,21 +2647,41 @@ func (g *gen) emit() (string, string, []string) {
 		if len(f.scratch) > 0 {
 			fmt.Fprintf(&b, "; final content of scratch `%s` dropped", strings.Join(f.scratch, ", "))
 		}
+		for i, w := range f.opaqueWhy {
+			fmt.Fprintf(&b, ";\n`large'%d` = whatever the code outside the subset computes (%s)", i+1,
+				strings.ReplaceAll(strings.ReplaceAll(w, "-/", "- /"), "/-", "/ -"))
+		}
 		b.WriteString("\n```go\n" + strings.ReplaceAll(strings.ReplaceAll(f.src, "-/", "- /"), "/-", "/ -") + "\n```\n-/\n")
 		fmt.Fprintf(&b, "def %s", f.leanName)
-		for _, p := range f.params {
+		for i, p := range f.params {
 			n := leanVar(p.name)
 			if p.t == tCipher {
 				n = "π"
 			}
 			fmt.Fprintf(&b, " (%s : %s)", n, p.t.lean())
+			if i == 0 && f.stateful {
+				for _, m := range opaqueMethodList(p.t) {
+					fmt.Fprintf(&b, " (%s : %s)", m.lean, m.typ(p.t))
+				}
+			}
+		}
+		for i := 1; i <= f.nOpaque; i++ {
+			typ := f.opaqueTyp[i-1]
+			if typ == "" {
+				typ = rts
+			}
+			fmt.Fprintf(&b, " (large'%d : %s)", i, typ)
 		}
 		fmt.Fprintf(&b, " : %s :=\n", rts)
 		printNode(&b, f.body, "  ", opt)
 		b.WriteString("\n")
-		fmt.Fprintf(&rep, "translated %-22s %s -> Mpc.Gen.%s\n", f.tgt, f.hash, f.leanName)
+		fmt.Fprintf(&rep, "translated %-30s %s -> %s.%s", f.tgt, f.hash, g.grp.ns, f.leanName)
+		if f.nOpaque > 0 {
+			fmt.Fprintf(&rep, " opaque=%d", f.nOpaque)
+		}
+		rep.WriteString("\n")
 	}
-	b.WriteString("end Mpc.Gen\n")
+	fmt.Fprintf(&b, "end %s\n", g.grp.ns)
 	return b.String(), rep.String(), nil
 }
 
@@ -2388,9 +2732,37 @@ func printNode(b *strings.Builder, n node, ind string, opt bool) {
 		}
 	case nPanic:
 		fmt.Fprintf(b, "%snone\n", ind)
+	case nOpaque:
+		fmt.Fprintf(b, "%s%s\n", ind, n.name)
 	case nLoop:
+		if n.optSt {
+			// general loop whose body can panic
+			cnt := n.nexpr
+			if cnt == "" {
+				cnt = fmt.Sprintf("%d", n.n)
+			}
+			fmt.Fprintf(b, "%slet %s : Option (%s) :=\n", ind, n.tmp, n.styp)
+			fmt.Fprintf(b, "%s  (List.range %s).foldl (fun (%s? : Option (%s)) (%s : Nat) =>\n", ind, paren(cnt), n.st, n.styp, n.k)
+			in2 := ind + "    "
+			fmt.Fprintf(b, "%sOption.elim %s? none (fun (%s : %s) =>\n", in2, n.st, n.st, n.styp)
+			in2 += "  "
+			if n.skip != "" {
+				fmt.Fprintf(b, "%sif %s then some %s else\n", in2, n.skip, n.st)
+			}
+			for _, p := range n.pre {
+				fmt.Fprintf(b, "%slet %s : %s := %s\n", in2, p[0], p[1], p[2])
+			}
+			printNode(b, n.body, in2, opt)
+			fmt.Fprintf(b, "%s  )) (some %s)\n", ind, paren(n.init))
+			printNode(b, n.after, ind, opt)
+			return
+		}
+		cnt := fmt.Sprintf("%d", n.n)
+		if n.nexpr != "" {
+			cnt = paren(n.nexpr)
+		}
 		fmt.Fprintf(b, "%slet %s : %s :=\n", ind, n.tmp, n.styp)
-		fmt.Fprintf(b, "%s  (List.range %d).foldl (fun (%s : %s) (%s : Nat) =>\n", ind, n.n, n.st, n.styp, n.k)
+		fmt.Fprintf(b, "%s  (List.range %s).foldl (fun (%s : %s) (%s : Nat) =>\n", ind, cnt, n.st, n.styp, n.k)
 		in2 := ind + "    "
 		if n.skip != "" {
 			fmt.Fprintf(b, "%sif %s then %s else\n", in2, n.skip, n.st)
